@@ -648,3 +648,76 @@ def rc_failing(p):
                 continue
             return t if e[1].endswith("is_failure") else (not t)
     return None
+
+
+# ----------------------------------------------------------------------------------------------------------------
+# property-list validators: discovered by signature, followed through helpers and function pointers
+PROP_TY = "mqtt::packet::property::Property"
+
+
+def fn_refs(f):
+    """Every function item a body refers to: resolved call targets, fn items used as values (`helper(x, Self::check)`,
+    a reified `fn(..)` pointer) and closures it creates."""
+    out = set()
+
+    def walk(x):
+        if isinstance(x, dict):
+            fi = x.get("fn")
+            if isinstance(fi, dict) and "path" in fi:
+                out.add((fi.get("res") or {}).get("path", fi["path"]))
+            c = x.get("closure")
+            if isinstance(c, str):
+                out.add(c)
+            for v in x.values():
+                walk(v)
+        elif isinstance(x, list):
+            for v in x:
+                walk(v)
+    walk(f["blocks"])
+    return out
+
+
+def is_prop_validator(f):
+    """A free function of the packet layer that takes a property list (slice / Vec / Option of it) and returns
+    Result<(), MqttError>: the shape of every per-location property check, whatever it is called."""
+    if f.get("kind") != "Fn" or not f["path"].startswith("mqtt::packet::"):
+        return False
+    rt = f["locals"][0].replace(" ", "")
+    if not (rt.startswith("std::result::Result<") and rt.endswith(",mqtt::result_code::MqttError>")):
+        return False
+    ok = rt[len("std::result::Result<"):-len(",mqtt::result_code::MqttError>")]
+    if ok != "()" and not (ok.startswith("mqtt::packet::") and "(" not in ok and "<" not in ok):       # () or a plain in-crate summary struct
+        return False
+    import explore
+    return explore.takes_property_list(f)
+
+
+def validators_reached(F, starts, through=None):
+    """Validators referenced from the start functions, directly or through private helpers / closures (never through
+    another validator, never through public API).  Returns {validator path: chain of function names leading to it}."""
+    import explore
+    through = through or (lambda g: g.get("kind") == "Closure" or explore.small_private_helper(g))
+    out = {}
+    seen = set()
+    work = [(s, (s.split("::")[-1],)) for s in starts]
+    while work:
+        p, chain = work.pop()
+        if p in seen or p not in F.fns:
+            continue
+        seen.add(p)
+        for r in sorted(fn_refs(F.fns[p])):
+            g = F.fns.get(r)
+            if g is None:
+                continue
+            if is_prop_validator(g):
+                out.setdefault(r, chain)
+            elif through(g) and len(chain) < 6:
+                work.append((r, chain + (r.split("::")[-1],)))
+    return out
+
+
+def not_validator_inline(F):
+    """Inlining policy for packet-layer explorations that must *see* validator calls: closures and small private helpers
+    are followed, validators stay calls (also when reached through a function pointer)."""
+    import explore
+    return lambda ex, callee, info: (callee.get("kind") == "Closure" or explore.small_private_helper(callee)) and not is_prop_validator(callee)
